@@ -254,7 +254,7 @@ func (x *fx) instr(in ssa.Instruction) {
 	case *ssa.Panic:
 		x.safety("panic", x.describe(i.X), "false", i.Pos())
 	case *ssa.Return:
-		x.rets = append(x.rets, retInfo{reach: x.curReach, st: st.clone(), vals: x.valsOf(i.Results), pos: x.pos(i.Pos())})
+		x.rets = append(x.rets, retInfo{reach: x.curReach, st: st.clone(), vals: x.valsOf(i.Results), pos: x.pos(i.Pos()), blk: i.Block()})
 	case *ssa.If, *ssa.Jump:
 	case *ssa.Send:
 		// channels are not part of the heap model: a send changes no heap object
